@@ -130,12 +130,21 @@ func checkC01(c *km.Ctx) {
 		}
 	}
 	checkAuthBits(c, s, checkAuth, "R-C01-3")
+	// a certificate of the wrong kind (one issued by the role-requesting CA, which shares the user CA's key) must
+	// not pass as a keymaster user certificate: the deny-list and CA-separation obligations of the certificate
+	// verifier (C06's R-C06-4) belong to "the credential is valid" here as well
+	checkKeymasterSigned(c, s, "R-C01-3")
 
 	// a session cookie counts as a credential only while its signed claims say so: issuer, audience, kind,
 	// not-before and expiry are the obligations of C04's consumers of the session token type, borrowed here
 	// (forged / foreign-issuer / other-kind / not-yet-valid / expired cookies must be refused by this endpoint)
 	r.Rule("R-C01-5", "the session cookie is honoured only with issuer == this server, audience[0] == this server, its own kind, not-before <= now and expiry not passed (C04's obligations for the session token consumers)", 3)
 	r.Remap = func(rule, fn, construct string) (string, bool) {
+		// the list of accepted signature algorithms has to follow the published keys: a list remembered from before
+		// an unseal makes every later session cookie unverifiable (a user who completed a factor is not served)
+		if rule == "R-C04-1" && (construct == "verifier list computed at call time" || strings.Contains(construct, "getJoseKeymastedVerifierList")) {
+			return "R-C01-5", true
+		}
 		if rule != "R-C04-2" && rule != "R-C04-3" && rule != "R-C04-4" {
 			return "", false
 		}
